@@ -14,6 +14,7 @@ import (
 	"github.com/herumi/bls-go-binary/bls"
 
 	"verifh/mon"
+	"verifh/snap"
 	"verifh/world"
 )
 
@@ -116,6 +117,11 @@ func zcnOps() []OpDef {
 			}
 			bal, _ := h.Bal(h.Cur, from.ID)
 			v := []uint64{1, 5, 1e10 - 1, 1e10, 1e10 + 1, 7e10, bal, bal + 1, 0}[r.Intn(9)]
+			if r.Chance(0.45) {
+				// around the two bridge minimums as currently configured (they may differ after a settings update)
+				mm, mb := zbMinimums(h)
+				v = zbAround(r, mm, mb)
+			}
 			if r.Chance(0.15 + h.hostile()*0.3) {
 				// another spelling of a known target address (Ethereum addresses are hex: case, blanks)
 				k := r.Intn(5)
@@ -862,68 +868,329 @@ func (h *Hist) burnNonce(s map[string][]byte, eth string) int64 {
 	return 0
 }
 
+// zbMinimums reads the two bridge minimums of the current state (generator side: used to aim values only).
+func zbMinimums(h *Hist) (minMint, minBurn uint64) {
+	minMint, minBurn = 1e10, 1e10
+	for _, n := range h.NodesOfType(h.Cur, "*zcnsc.GlobalNode") {
+		minMint, minBurn = U(n.Val, "ZCNSConfig.MinMintAmount"), U(n.Val, "ZCNSConfig.MinBurnAmount")
+	}
+	return
+}
+
+// zbAround picks a value below, at, between or above two thresholds.
+func zbAround(r *mon.Rand, a, b uint64) uint64 {
+	lo, hi := a, b
+	if lo > hi {
+		lo, hi = hi, lo
+	}
+	if lo == 0 {
+		lo = 1
+	}
+	if hi < lo {
+		hi = lo
+	}
+	c := []uint64{lo - 1, lo, lo + 1, lo + (hi-lo)/2, hi - 1, hi, hi + 1, lo / 2, 2 * hi}
+	return c[r.Intn(len(c))]
+}
+
+// zbModel is the reference model of the burn rule: the minimum burn amount as configured (genesis value, then every successfully
+// applied settings update as read from the submitted transaction) and the number of successful burns per target address.
+type zbModel struct {
+	minBurn, minMint uint64
+	updates          int
+	counts           map[string]int64
+	spell            map[string]map[string]bool
+}
+
+func zbGetModel(h *Hist, o *TxnObs) *zbModel {
+	m, _ := h.Vars["zbC19"].(*zbModel)
+	if m == nil {
+		m = &zbModel{counts: map[string]int64{}, spell: map[string]map[string]bool{}}
+		for _, n := range h.NodesOfType(o.Pre, "*zcnsc.GlobalNode") {
+			m.minBurn, m.minMint = U(n.Val, "ZCNSConfig.MinBurnAmount"), U(n.Val, "ZCNSConfig.MinMintAmount")
+		}
+		h.Vars["zbC19"] = m
+	}
+	return m
+}
+
+// zbZCN converts a settings value given in ZCN (decimal text) into coins (1 ZCN = 1e10).
+func zbZCN(v string) (uint64, bool) {
+	f, err := strconv.ParseFloat(v, 64)
+	if err != nil || f < 0 || math.IsNaN(f) || math.IsInf(f, 0) {
+		return 0, false
+	}
+	return uint64(math.Round(f * 1e10)), true
+}
+
+// zbObserveConfig follows a successfully applied update-global-config: the minimums named in the request are in force afterwards.
+func zbObserveConfig(h *Hist, m *zbModel, o *TxnObs) {
+	if o.Outcome != "success" {
+		return
+	}
+	var env struct {
+		Input struct {
+			Fields map[string]string `json:"fields"`
+		} `json:"input"`
+	}
+	if json.Unmarshal([]byte(o.Txn.TransactionData), &env) != nil {
+		return
+	}
+	if v, ok := env.Input.Fields["min_burn"]; ok {
+		if c, ok := zbZCN(v); ok {
+			m.minBurn = c
+			m.updates++
+			h.C("C19", "min_burn_updates_observed")
+		}
+	}
+	if v, ok := env.Input.Fields["min_mint"]; ok {
+		if c, ok := zbZCN(v); ok {
+			m.minMint = c
+			h.C("C19", "min_mint_updates_observed")
+		}
+	}
+}
+
+// zbBurnAddress is the target address of a burn as submitted.
+func zbBurnAddress(o *TxnObs) (string, bool) {
+	var env struct {
+		Name  string `json:"name"`
+		Input struct {
+			Eth *string `json:"ethereum_address"`
+		} `json:"input"`
+	}
+	if json.Unmarshal([]byte(o.Txn.TransactionData), &env) == nil && env.Name == "burn" {
+		if env.Input.Eth == nil {
+			return "", true
+		}
+		return *env.Input.Eth, true
+	}
+	eth, ok := o.Call.Meta["eth"].(string)
+	return eth, ok
+}
+
+// zbUserNodes lists the target addresses whose bridge user record differs between the two states of the transaction.
+func zbUserNodes(h *Hist, o *TxnObs) []string {
+	var out []string
+	for _, p := range o.Delta.All() {
+		ki := h.Obs.Lookup(p)
+		if ki == nil || ki.Type == nil || ki.Type.String() != "*zcnsc.UserNode" {
+			continue
+		}
+		id := ""
+		for _, s := range []snap.Snapshot{o.Post, o.Pre} {
+			if raw, ok := s[p]; ok && id == "" {
+				if v, err := Decode(ki, raw); err == nil {
+					id = Str(v, "ID")
+				}
+			}
+		}
+		out = append(out, id)
+	}
+	return out
+}
+
+// monC19 judges every burn against the reference model: from the minimum burn amount in force before the transaction, the value
+// and the target address it decides whether the burn may succeed at all; a successful burn must be one that may succeed and must
+// move exactly the value to the bridge wallet and advance exactly the target's nonce by one; any other burn must change nothing.
 func monC19(h *Hist, o *TxnObs) {
-	if o.Call.Name != "zcn.burn" {
+	m := zbGetModel(h, o)
+	isSC := o.Txn.TransactionType == transaction.TxnTypeSmartContract && o.Txn.ToClientID == zcnsc.ADDRESS && o.Txn.SmartContractData != nil
+	if isSC && o.Txn.FunctionName == "update-global-config" {
+		zbObserveConfig(h, m, o)
+		return
+	}
+	if o.Call.Name != "zcn.burn" && !(isSC && o.Txn.FunctionName == "burn") {
+		return
+	}
+	eth, ok := zbBurnAddress(o)
+	if !ok {
+		h.C("C19", "burns_payload_unreadable")
 		return
 	}
 	h.C("C19", "burns_judged")
+	if o.Call.Name != "zcn.burn" {
+		h.C("C19", "burns_judged_resubmitted")
+	}
 	if o.Call.Mut != "" {
 		h.C("C19", "burns_"+o.Call.Mut+"|"+o.Outcome)
 	}
-	eth, _ := o.Call.Meta["eth"].(string)
-	var minBurn uint64
+	value, fee := uint64(o.Txn.Value), uint64(o.Txn.Fee)
+	minBurn, minMint := m.minBurn, m.minMint
+	// the configured minimum as the state holds it before the transaction: must be what the settings updates put there
+	var stateMin uint64
 	for _, n := range h.NodesOfType(o.Pre, "*zcnsc.GlobalNode") {
-		minBurn = U(n.Val, "ZCNSConfig.MinBurnAmount")
+		stateMin = U(n.Val, "ZCNSConfig.MinBurnAmount")
 	}
+	if stateMin != minBurn {
+		h.C("C19", "obs_state_min_burn_differs_from_configured_value")
+	}
+	may := value >= minBurn && eth != ""
+	// where the value lies relative to the two bridge minimums (they are independent settings)
+	class := "at-or-above-both"
+	switch {
+	case value < minBurn && value < minMint:
+		class = "below-both"
+	case value < minBurn:
+		class = "between:mint<=v<burn"
+	case value < minMint:
+		class = "between:burn<=v<mint"
+	}
+	cfg := "burn=mint"
+	switch {
+	case minBurn > minMint:
+		cfg = "burn>mint"
+	case minBurn < minMint:
+		cfg = "burn<mint"
+	}
+	h.C("C19", "burn_value_"+class+"|cfg:"+cfg+"|"+o.Outcome)
+	pre, post := h.burnNonce(o.Pre, eth), h.burnNonce(o.Post, eth)
 	if r := h.Runs["C19"]; r != nil {
 		r.Eval(1)
-		r.Distinct(fmt.Sprintf("v<min=%v|addr=%v|%s|n=%d|mut=%s", uint64(o.Txn.Value) < minBurn, eth != "", o.Outcome, h.burnNonce(o.Pre, eth), o.Call.Mut))
+		r.Distinct(fmt.Sprintf("v<min=%v|%s|cfg=%s|addr=%v|%s|n=%d|mut=%s", value < minBurn, class, cfg, eth != "", o.Outcome, pre, o.Call.Mut))
 	}
-	counts, _ := h.Vars["c19"].(map[string]int64)
-	if counts == nil {
-		counts = map[string]int64{}
-		h.Vars["c19"] = counts
-	}
+	d := h.deltas(o)
+	touched := zbUserNodes(h, o)
 	if o.Outcome != "success" {
-		if o.Outcome == "failed" && h.burnNonce(o.Post, eth) != h.burnNonce(o.Pre, eth) {
-			h.V("C19", "failed-burn-advanced-nonce", "burn nonce moved on a failed burn", o)
+		// a refused burn (below the minimum, no address, or refused for any other reason) changes nothing
+		if post != pre || len(touched) > 0 {
+			h.V("C19", "failed-burn-advanced-nonce", fmt.Sprintf("burn nonce moved on a %s burn (%d -> %d, %d user records touched)", o.Outcome, pre, post, len(touched)), o)
+		}
+		if d[zcnsc.ADDRESS] != 0 || d[o.Txn.ClientID] < -int64(fee) {
+			h.V("C19", "refused-burn-moved-tokens", fmt.Sprintf("%s burn of %d (min %d): burner delta %d (fee %d), bridge wallet delta %d", o.Outcome, value, minBurn, d[o.Txn.ClientID], fee, d[zcnsc.ADDRESS]), o)
+		}
+		if !may {
+			h.C("C19", "refused_burns_that_may_not_succeed_changed_nothing")
+		} else if bal, _ := h.Bal(o.Pre, o.Txn.ClientID); o.Outcome == "failed" && bal >= value+fee && bal >= value {
+			// not judged: the statement does not say that every admissible burn must be accepted
+			h.C("C19", "obs_admissible_funded_burn_refused|"+class)
 		}
 		return
 	}
-	if uint64(o.Txn.Value) < minBurn || eth == "" {
-		h.V("C19", "invalid-burn-accepted", fmt.Sprintf("burn of %d (min %d) to address %q succeeded", o.Txn.Value, minBurn, eth), o)
+	if !may {
+		why := "below-minimum"
+		if eth == "" {
+			why = "no-address"
+		}
+		h.V("C19", "invalid-burn-accepted", fmt.Sprintf("%s: burn of %d (configured min burn %d, min mint %d) to address %q succeeded", why, value, minBurn, minMint, eth), o)
 	}
 	if eth != "" && strings.TrimSpace(eth) == "" {
 		h.C("C19", "obs_burn_to_blank_address_accepted")
 	}
-	d := h.deltas(o)
-	if d[o.Txn.ClientID]+int64(o.Txn.Fee) != -int64(o.Txn.Value) {
-		h.V("C19", "burner-not-debited-value", fmt.Sprintf("burner delta %d, value %d fee %d", d[o.Txn.ClientID], o.Txn.Value, o.Txn.Fee), o)
+	if d[o.Txn.ClientID]+int64(fee) != -int64(value) {
+		h.V("C19", "burner-not-debited-value", fmt.Sprintf("burner delta %d, value %d fee %d", d[o.Txn.ClientID], value, fee), o)
 	}
-	if d[zcnsc.ADDRESS] != int64(o.Txn.Value) {
-		h.V("C19", "bridge-wallet-not-credited-value", fmt.Sprintf("bridge wallet delta %d, value %d", d[zcnsc.ADDRESS], o.Txn.Value), o)
+	if d[zcnsc.ADDRESS] != int64(value) {
+		h.V("C19", "bridge-wallet-not-credited-value", fmt.Sprintf("bridge wallet delta %d, value %d", d[zcnsc.ADDRESS], value), o)
 	}
-	pre, post := h.burnNonce(o.Pre, eth), h.burnNonce(o.Post, eth)
-	counts[eth]++
+	m.counts[eth]++
 	// observation (not judged: the statement keys the nonce by the target address as given): one hex address burnt to under
 	// several spellings keeps one nonce sequence per spelling
-	spell, _ := h.Vars["c19spell"].(map[string]map[string]bool)
-	if spell == nil {
-		spell = map[string]map[string]bool{}
-		h.Vars["c19spell"] = spell
-	}
 	canon := strings.ToLower(strings.TrimSpace(eth))
-	if spell[canon] == nil {
-		spell[canon] = map[string]bool{}
+	if m.spell[canon] == nil {
+		m.spell[canon] = map[string]bool{}
 	}
-	spell[canon][eth] = true
-	if len(spell[canon]) > 1 {
+	m.spell[canon][eth] = true
+	if len(m.spell[canon]) > 1 {
 		h.C("C19", "obs_burn_to_address_known_under_other_spelling_has_own_nonce_sequence")
 	}
 	if post != pre+1 {
 		h.V("C19", "burn-nonce-not-plus-one", fmt.Sprintf("burn nonce of %s went %d -> %d", eth, pre, post), o)
 	}
-	if post != counts[eth] {
-		h.V("C19", "burn-nonce-not-per-address-count", fmt.Sprintf("address %s: %d successful burns but nonce %d", eth, counts[eth], post), o)
+	if post != m.counts[eth] {
+		h.V("C19", "burn-nonce-not-per-address-count", fmt.Sprintf("address %s: %d successful burns but nonce %d", eth, m.counts[eth], post), o)
 	}
+	for _, id := range touched {
+		if id != eth {
+			h.V("C19", "burn-touched-other-address-record", fmt.Sprintf("burn to %q altered the user record of %q", eth, id), o)
+		}
+	}
+}
+
+// zbScenarioC19 is the directed part of the C19 workload. The bridge has two independent minimums (min_mint, min_burn); the owner
+// sets them to different values in both orders and clients burn values below both, between them and above both (to known and new
+// target addresses, sometimes without an address). The random operations follow.
+func zbScenarioC19(h *Hist, mons []Monitor) {
+	r := h.R.Fork("c19-minimums-apart")
+	submit := func(c *Call) *TxnObs {
+		o := h.Submit(c, mons)
+		if o.Outcome != "rejected" {
+			h.S.Accepted = append(h.S.Accepted, o.Txn)
+			if len(h.S.Accepted) > 64 {
+				h.S.Accepted = h.S.Accepted[1:]
+			}
+		}
+		if h.TxInBlk >= 1+r.Intn(5) {
+			h.EndBlock()
+			h.advanceTime(r)
+		}
+		return o
+	}
+	update := func(fields map[string]string) {
+		submit(&Call{Name: "zcn.update-settings", Meta: map[string]interface{}{"gov": "zcn", "settings": fields, "all_valid_syntax": true},
+			Spec: world.TxnSpec{From: h.W.Owner, To: zcnsc.ADDRESS, Fee: Coin(h.fee(r) % 1000), Type: transaction.TxnTypeSmartContract, Func: "update-global-config", Input: map[string]interface{}{"fields": fields}}})
+	}
+	// {min_mint, min_burn} in ZCN
+	up := [][2]string{{"1", "3"}, {"0.5", "2"}, {"2", "5"}, {"1", "1.5"}, {"0.25", "1"}}
+	down := [][2]string{{"2", "0.25"}, {"3", "1"}, {"5", "2"}, {"1.5", "0.5"}, {"1", "0.5"}}
+	phases := [][2]string{up[r.Intn(len(up))], down[r.Intn(len(down))]}
+	if r.Chance(0.5) {
+		phases[0], phases[1] = phases[1], phases[0]
+	}
+	if r.Chance(0.3) {
+		phases = append(phases, [2]string{"2", "2"})
+	}
+	z := h.S.Zc
+	for _, ph := range phases {
+		if r.Chance(0.3) {
+			// one setting per call, in either order
+			f := []map[string]string{{"min_mint": ph[0]}, {"min_burn": ph[1]}}
+			if r.Chance(0.5) {
+				f[0], f[1] = f[1], f[0]
+			}
+			update(f[0])
+			update(f[1])
+		} else {
+			update(map[string]string{"min_mint": ph[0], "min_burn": ph[1]})
+		}
+		mm, mb := zbMinimums(h)
+		lo, hi := mm, mb
+		if lo > hi {
+			lo, hi = hi, lo
+		}
+		if lo == 0 {
+			lo = 1
+		}
+		vals := []uint64{lo - 1, lo, lo + (hi-lo)/2, hi - 1, hi}
+		extra := []uint64{1, lo + 1, hi + 1, 2 * hi, lo / 2, lo + (hi-lo)/3}
+		for i := 0; i < 2; i++ {
+			vals = append(vals, extra[r.Intn(len(extra))])
+		}
+		r.Shuffle(len(vals), func(i, j int) { vals[i], vals[j] = vals[j], vals[i] })
+		for _, v := range vals {
+			from := h.anyClient(r)
+			for try := 0; try < 6; try++ {
+				if bal, _ := h.Bal(h.Cur, from.ID); bal >= v+1000 {
+					break
+				}
+				from = h.anyClient(r)
+			}
+			addr := z.EthAddrs[r.Intn(len(z.EthAddrs))]
+			if r.Chance(0.2) {
+				addr = fmt.Sprintf("0xC19n%d", r.Intn(1000))
+			}
+			mut := ""
+			if r.Chance(0.1) {
+				addr, mut = "", "no-address"
+			}
+			in := map[string]interface{}{"ethereum_address": addr}
+			submit(&Call{Name: "zcn.burn", Mut: mut, Meta: map[string]interface{}{"eth": addr, "c19_directed": true},
+				Spec: world.TxnSpec{From: from, To: zcnsc.ADDRESS, Value: Coin(v), Fee: Coin(h.fee(r) % 1000), Type: transaction.TxnTypeSmartContract, Func: "burn", Input: in}})
+		}
+	}
+	h.EndBlock()
+}
+
+func init() {
+	RegisterScenario(Scenario{Prop: "C19", Name: "minimums-apart", Every: 1, Fn: zbScenarioC19})
 }
